@@ -163,7 +163,7 @@ def call_function(it, fn, args, kwargs):
         bound = bind_args(fn, args, kwargs)
         if c is None:
             raise EngineError(f'call to {I.qualname_of(fn)}: no contract and not transparent')
-        if c.mode == 'transparent' or it.concrete:
+        if c.mode == 'transparent' or it.concrete or c.inline_at_calls:
             it.used.add(c.qualname)
             return run_body(it, fn, bound)
         return call_by_contract(it, c, fn, bound)
@@ -559,6 +559,12 @@ def intrinsic(it, name, args, kwargs):
             for b in range(a + 1, len(args)):
                 out.append(b_not(it.eq(args[a], args[b])))
         return b_and(*out)
+    if name == 'load_schema':
+        return speclib.load_schema(*args)
+    if name == 'json_conforms':
+        return json_conforms(it, args[0], args[1], '$')
+    if name == 'json_text':
+        return it.models_mod._json_dumps(it, args[0])
     if name == 'bytes_seq':
         from . import ext as _ext
         from .dsl import IntElem
@@ -612,6 +618,72 @@ def intrinsic(it, name, args, kwargs):
         e = spec_get(it, xs, it.binop(ast.Sub(), n, k))
         return b_and(ok, it.identical(e, v))
     raise EngineError(f'intrinsic {name}')
+
+
+_JSON_KINDS = {'null', 'boolean', 'integer', 'number', 'string', 'array', 'object'}
+
+
+def json_conforms(it, v, node, path):
+    """Structural schema check of a symbolic JSON value: the JSON kind of every value is
+    determined by its sort (Int -> integer, string -> string, option -> null or inner, list ->
+    array, dict -> object); `required`, `properties` and `items` are followed."""
+    from .strings import XStr
+    from .ext import JDump
+    if isinstance(v, SOpt):
+        return b_or(b_and(mk_bool(v.isnone), json_conforms(it, None, node, path)),
+                    b_and(b_not(mk_bool(v.isnone)), json_conforms(it, v.inner, node, path)))
+    if v is None:
+        kind = 'null'
+    elif isinstance(v, (bool, SBool)):
+        kind = 'boolean'
+    elif is_int_like(v):
+        kind = 'integer'
+    elif isinstance(v, (str, XStr)):
+        kind = 'string'
+    elif isinstance(v, (SList, GList, V.SMap, SSeq, tuple, list)):
+        kind = 'array'
+    elif isinstance(v, (SDict, dict)):
+        kind = 'object'
+    else:
+        raise EngineError(f'json_conforms: value of unknown JSON kind at {path}: {v!r}')
+    t = node.get('type')
+    if t is not None:
+        allowed = set(t if isinstance(t, list) else [t])
+        if not (allowed <= _JSON_KINDS):
+            raise EngineError(f'schema type {t}')
+        if kind not in allowed and not (kind == 'integer' and 'number' in allowed):
+            it.schema_misfit = getattr(it, 'schema_misfit', []) + [(path, kind, sorted(allowed))]
+            return False
+    out = []
+    if kind == 'object':
+        d = v.d if isinstance(v, SDict) else v
+        for k in node.get('required', []):
+            if k not in d:
+                return False
+        for k, sub in node.get('properties', {}).items():
+            if k in d:
+                out.append(json_conforms(it, d[k], sub, f'{path}.{k}'))
+    if kind == 'array' and 'items' in node:
+        sub = node['items']
+        if isinstance(v, V.SMap):
+            base = v.base()
+            k = it.ctx.fresh_int('item')
+            tt = z3.Select(base.arr, k)
+            tc = base.elem.typ(tt)
+            if tc is not None:
+                it.ctx.assume_type(tc)
+            out.append(json_conforms(it, v.at(base.elem.wrap(tt)), sub, path + '[]'))
+        elif isinstance(v, SSeq):
+            k = it.ctx.fresh_int('item')
+            out.append(json_conforms(it, v.elem.wrap(z3.Select(v.arr, k)), sub, path + '[]'))
+        else:
+            for g, x in it.iterate_guarded(v):
+                out.append(b_implies(g, json_conforms(it, x, sub, path + '[]')))
+    for kw in node:
+        if kw not in ('type', 'properties', 'required', 'items', 'description', '$schema',
+                      'definitions'):
+            raise EngineError(f'schema keyword {kw!r} is not modelled')
+    return b_and(*out)
 
 
 def seq_appended(it, new, old, x):
@@ -689,6 +761,13 @@ def deep_same(it, a, b, seen=None):
         if a.kind != b.kind or a.fields.keys() != b.fields.keys():
             return False
         return b_and(*[deep_same(it, a.fields[k], b.fields[k], seen) for k in a.fields])
+    if isinstance(a, V.SMap) or isinstance(b, V.SMap):
+        return V.smap_eq(it, a, b)
+    from .strings import XStr
+    if isinstance(a, (str, XStr)) and isinstance(b, (str, XStr)):
+        return it.eq(a, b)
+    if isinstance(a, GList) and isinstance(b, GList):
+        return it.glist_eq(a, b)
     if isinstance(a, SSeq) and isinstance(b, SSeq):
         # equal as Python lists: same length and same elements below the length
         if isinstance(a.arr, z3.ExprRef) and a.arr.eq(b.arr):
